@@ -200,6 +200,57 @@ class SimReadHandle(object):
         self._event('read', n if n < (1 << 62) else -3, len(out))
         return out
 
+    # The rest of the API an in-memory binary stream offers (io.BytesIO has
+    # all of these): a library fast path that uses them must meet the same
+    # bytes, and every call is an event like read().
+    def read1(self, n=-1):
+        return self.read(n)
+
+    def readline(self, size=-1):
+        if self.closed:
+            raise ValueError('I/O operation on closed file.')
+
+        if size is None:
+            size = -1
+
+        j = self.data.find(b'\n', self.pos)
+        end = len(self.data) if j < 0 else j + 1
+
+        if size >= 0:
+            end = min(end, self.pos + size)
+
+        return self.read(end - self.pos)
+
+    def readlines(self, hint=-1):
+        out = []
+
+        while True:
+            line = self.readline()
+
+            if not line:
+                return out
+
+            out.append(line)
+
+    def readinto(self, b):
+        chunk = self.read(len(b))
+        b[:len(chunk)] = chunk
+        return len(chunk)
+
+    def __iter__(self):
+        return self
+
+    def __next__(self):
+        line = self.readline()
+
+        if not line:
+            raise StopIteration
+
+        return line
+
+    def getvalue(self):
+        return self.data
+
     def seek(self, off, whence=0):
         if self.closed:
             raise ValueError('I/O operation on closed file.')
